@@ -14,7 +14,7 @@ class _NoAdd:
 
 
 _NOSTART = _NoAdd()
-C08_APPS = ["anext", "islice2", "takewhile", "zip_first", "zip_second", "batched2", "pairwise", "islice022", "merge2", "sum_failing", "groupby_stale", "zip_strict3", "enumerate", "chain", "filter", "merge1", "iter", "borrow", "map", "dropwhile", "islice13", "accumulate", "zip_longest", "compress", "cycle"]
+C08_APPS = ["anext", "islice2", "takewhile", "zip_first", "zip_second", "batched2", "pairwise", "islice022", "merge2", "sum_failing", "groupby_stale", "zip_strict3", "zip_longest_same", "enumerate", "chain", "filter", "merge1", "iter", "borrow", "map", "dropwhile", "islice13", "accumulate", "zip_longest", "compress", "cycle"]
 NA = len(C08_APPS)
 
 
@@ -293,32 +293,32 @@ def jobs(tier):
 
     N = 3
     for a0 in range(NA):
-        # A: every tool followed by one of the 12 consumption-distinct tools over the shared iterator
-        add(N=N, LP=2, apps=12, D=1, EX=0, J=(1, 2), fix={"a0": a0, "n": N, "d1": 0}, fl="agen")
+        # A: every tool followed by one of the 13 consumption-distinct tools over the shared iterator
+        add(N=N, LP=2, apps=13, D=1, EX=0, J=(1, 2), fix={"a0": a0, "n": N, "d1": 0}, fl="agen")
         # B: every tool alone: all lengths, items taken, dispositions, exit by exception before/after
         add(N=N, LP=1, apps=NA, D=1, EX=1, fix={"a0": a0}, fl=("acls" if a0 % 2 else "agen"))
     # C: nesting depth 2..3 (application innermost, outer handles used after inner exit)
     for depth in (2, 3):
         for fl in ("agen", "acls"):
-            add(N=N, LP=1, apps=12, D=3, EX=1, fix={"depth": depth, "n": N}, fl=fl)
+            add(N=N, LP=1, apps=13, D=3, EX=1, fix={"depth": depth, "n": N}, fl=fl)
     # sync iterables under scoped_iter (their helper iterator must be protected as well)
     for fl in ("iter", "seq", "llist"):
         for a0 in (1, 3, 5):
             add(N=N, LP=2, apps=4, D=2, EX=0, J=(1, 2), fix={"a0": a0, "n": N, "d1": 0}, fl=fl)
     # D: cancellation at every suspension point (sources suspend once per pull), depth 1..2
-    for a0 in range(12):
-        add(N=2, LP=1, apps=12, D=2, EX=0, XC=7, fix={"a0": a0, "n": 2}, fl=("acls" if a0 % 2 else "agen"))
+    for a0 in range(13):
+        add(N=2, LP=1, apps=13, D=2, EX=0, XC=7, fix={"a0": a0, "n": 2}, fl=("acls" if a0 % 2 else "agen"))
     if not q:
-        for a0 in range(12):
-            for a1 in range(12):
+        for a0 in range(13):
+            for a1 in range(13):
                 for jr in ((1, 1), (2, 2)) if (a0 == 8 and a1 == 8) else ((1, 2),):  # merge twice: split by items taken
-                    add(N=N, LP=3, apps=12, D=1, EX=1, J=jr, fix={"a0": a0, "a1": a1, "n": N, "d1": 1, "d2": 0}, fl="acls")
+                    add(N=N, LP=3, apps=13, D=1, EX=1, J=jr, fix={"a0": a0, "a1": a1, "n": N, "d1": 1, "d2": 0}, fl="acls")
     return J
 
 
 LEVEL = "other"
 BOUNDS = {
-    "quick": "block programs of 2 applications (tool by symbolic selector from 20 tools; second from the 12 consumption-distinct ones), j<=2 items each, disposition exhausted/closed/abandoned, exit by fall-through or an exception raised before application e or after the last; nesting depth 1..3 (one application innermost, outer handle used after inner exit); cancellation at suspension k<=6 with suspending sources; N<=2..3 items, keys unbounded",
+    "quick": "block programs of 2 applications (tool by symbolic selector from 20 tools; second from the 13 consumption-distinct ones), j<=2 items each, disposition exhausted/closed/abandoned, exit by fall-through or an exception raised before application e or after the last; nesting depth 1..3 (one application innermost, outer handle used after inner exit); cancellation at suspension k<=6 with suspending sources; N<=2..3 items, keys unbounded",
     "thorough": "3 applications, N<=3, class-based sources",
 }
 OUTSIDE = ["more than 3 applications per block", "nesting deeper than 3", "concurrent use of the scoped handle"]
